@@ -20,9 +20,10 @@ func init() {
 			"R13.3 SetScrapeErr runs at exit with the final error; inside it err == nil gives health up and empty error, otherwise health down and the text; " +
 			"R13.4 each failing scraper call stores a non-nil error into the completion's error variable on its error edge before the handler exits; " +
 			"R13.5 under a non-empty stop reason the writer is not handed over and the completion writes a non-200 status and records an error; " +
-			"R13.6 every WriteHeader argument in the proxy is a constant other than 200; R13.7 a failure recorded before any byte was forwarded is answered with a failure status by the completion. " +
+			"R13.6 every WriteHeader argument in the proxy is a constant other than 200; R13.7 a failure recorded before any byte was forwarded is answered with a failure status by the completion; " +
+			"R13.8 a failed read of the body is a failed scrape although the pinned stream parser takes some read errors (text containing 'reset by peer') for the end of the stream: the tee's Read stores every error of the underlying read other than io.EOF into a field of the tee that nothing else writes, and ParseResponse returns nil only if that field is nil after parsing; R13.9 every successful return of RequestTo implies StatusCode == 200 (helper predicates are looked through). " +
 			"Not decided: what an HTTP client observes (taken from the documented net/http contract).",
-		Assumptions: []string{"go/types and go/ssa are correct", "net/http: WriteHeader after the first Write is ignored; panic(http.ErrAbortHandler) aborts the response", "fmt.Errorf never returns nil"}})
+		Assumptions: []string{"go/types and go/ssa are correct", "net/http: WriteHeader after the first Write is ignored; panic(http.ErrAbortHandler) aborts the response", "fmt.Errorf never returns nil", "github.com/VictoriaMetrics/VictoriaMetrics v1.71.0 lib/protoparser/common.isEOFLikeError ends the stream silently on read errors whose text contains 'reset by peer' (read; demonstrated by seeded/D12)"}})
 }
 
 type proxyRoles struct {
@@ -133,6 +134,8 @@ func runC13(p *engine.Prog, r *engine.Report) {
 	r.Min("R13.5-stop-scrape", 1)
 	r.Min("R13.6-status-codes", 1)
 	r.Min("R13.7-failure-status", 1)
+	r.Min("R13.8-read-failure-reported", 2)
+	r.Min("R13.9-only-200-succeeds", 1)
 	if pr.request == nil || pr.parse == nil || pr.completion == nil || pr.errCell == nil {
 		r.Add("R13.1-late-failure-aborts", "roles", engine.FuncName(fn), "the handler calls RequestTo and ParseResponse and defers a completion that calls SetScrapeErr with a captured error variable",
 			fmt.Sprintf("RequestTo:%v ParseResponse:%v completion:%v error variable:%v", pr.request != nil, pr.parse != nil, pr.completion != nil, pr.errCell != nil), engine.Undecided)
@@ -521,6 +524,44 @@ func runC13(p *engine.Prog, r *engine.Report) {
 		r.Check(len(probs) == 0, "R13.7-failure-status", "completion "+engine.FuncName(pr.completion), "completion of "+engine.FuncName(fn), "error variable non-nil at entry ⇒ a non-200 status is written before the completion ends", strings.Join(probs, "; "))
 	}
 
+	// ---- R13.9: any status other than 200 is a failed request
+	if rq := p.SSAFunc(p.Method(pkgScrape, "Scraper", "RequestTo")); rq != nil {
+		rfi := p.Info(rq)
+		var atoms []string
+		for _, a := range append(rfi.AllAtoms(), rfi.Deep().AllAtoms()...) {
+			if strings.HasPrefix(a, "eq0(") && strings.HasSuffix(a, ".StatusCode-200)") && strings.Contains(a, ".HTTPResponse") {
+				atoms = append(atoms, a)
+			}
+		}
+		var probs []string
+		if len(atoms) == 0 {
+			probs = append(probs, "the response status is never compared with 200")
+		}
+		nOK := 0
+		for _, ret := range returnsOf(rq) {
+			if !isNilConst(returnedValue(ret, 0)) {
+				continue
+			}
+			nOK++
+			okRet := false
+			for _, a := range atoms {
+				if ok, _ := rfi.Implies(ret.Block(), engine.A(a)); ok {
+					okRet = true
+				}
+			}
+			if !okRet && len(atoms) > 0 {
+				probs = append(probs, "RequestTo can succeed at "+p.Rel(ret.Pos())+" with a status other than 200")
+			}
+		}
+		if nOK == 0 {
+			probs = append(probs, "no successful return found")
+		}
+		r.Check(len(probs) == 0, "R13.9-only-200-succeeds", "status check in "+engine.FuncName(rq), engine.FuncName(rq), "every successful return implies StatusCode == 200", strings.Join(probs, "; "))
+	}
+
+	// ---- R13.8: a failed read of the target's body is a failed scrape
+	checkReadFailureReported(p, r)
+
 	// ---- R13.6
 	nWH := 0
 	for _, f := range append([]*ssa.Function{fn}, fn.AnonFuncs...) {
@@ -542,3 +583,183 @@ func runC13(p *engine.Prog, r *engine.Report) {
 }
 
 func controlsC13(p *engine.Prog) []Control { return nil }
+
+// checkReadFailureReported is R13.8.
+func checkReadFailureReported(p *engine.Prog, r *engine.Report) {
+	mParse := p.Method(pkgScrape, "Scraper", "ParseResponse")
+	fReader := p.Field(pkgScrape, "Scraper", "reader")
+	if len(p.Problems) > 0 {
+		return
+	}
+	const need1 = "every error of the underlying read other than io.EOF is stored into a field of the tee (at least while that field is nil); nothing else writes the field"
+	const need2 = "ParseResponse returns nil only when the tee's stored read error, loaded after parsing, is nil"
+	// the tee: a Read method in pkg/scrape that forwards to writers
+	var tee *ssa.Function
+	for _, fn := range p.Funcs {
+		if !engine.InPkg(fn, pkgScrape) || fn.Name() != "Read" || fn.Signature.Recv() == nil || len(fn.Params) != 2 {
+			continue
+		}
+		for _, in := range allInstrs(fn) {
+			if call, ok := in.(*ssa.Call); ok && call.Call.IsInvoke() && call.Call.Method.Name() == "Write" {
+				tee = fn
+			}
+		}
+	}
+	if tee == nil {
+		r.Add("R13.8-read-failure-reported", "read error kept by the tee", pkgScrape, need1, "no Read method that forwards to io.Writers found", engine.Undecided)
+		return
+	}
+	fi := p.Info(tee)
+	var rd *ssa.Call
+	for _, in := range allInstrs(tee) {
+		if call, ok := in.(*ssa.Call); ok && call.Call.IsInvoke() && call.Call.Method.Name() == "Read" {
+			rd = call
+		}
+	}
+	var latch *types.Var
+	{
+		var probs []string
+		var rerr *ssa.Extract
+		if rd != nil {
+			rerr = extractOf(rd, 1)
+		}
+		if rerr == nil {
+			probs = append(probs, "the error of the underlying read is not used")
+		} else {
+			et := fi.T(rerr).S
+			var stores []*ssa.Store
+			for _, in := range allInstrs(tee) {
+				st, ok := in.(*ssa.Store)
+				if !ok {
+					continue
+				}
+				fa, ok := st.Addr.(*ssa.FieldAddr)
+				if !ok || fa.X != ssa.Value(tee.Params[0]) {
+					continue
+				}
+				if fi.T(st.Val).S == et {
+					stores = append(stores, st)
+					latch = engine.FieldOf(fa)
+				}
+			}
+			if len(stores) == 0 {
+				probs = append(probs, "the error of the underlying read is never stored in the tee: a read failure that the stream parser takes for the end of the stream ('reset by peer') leaves no trace and the scrape is reported complete")
+			} else {
+				recvT := fi.T(tee.Params[0]).S
+				failed := engine.And(engine.Not(engine.EqAtom(et, "nil")), engine.Not(engine.EqAtom(et, "g:io.EOF")), engine.EqAtom(recvT+"."+latch.Name(), "nil"))
+				v := fi.ViewAll(failed, rd.Block())
+				if v == nil {
+					probs = append(probs, "too many conditions in "+engine.FuncName(tee)+" to decide when the error is stored")
+				} else {
+					// the stores are alternatives: the disjunction of their path conditions must cover 'failed'
+					covered := false
+					for _, st := range stores {
+						if v.ImpliedBy(st.Block(), failed) {
+							covered = true
+						}
+					}
+					if !covered {
+						probs = append(probs, "a failed read (error neither nil nor io.EOF, no earlier error kept) does not always reach the store at "+p.Rel(stores[0].Pos()))
+					}
+				}
+			}
+		}
+		// who else writes the field
+		if latch != nil {
+			for _, fn := range p.Funcs {
+				for _, in := range allInstrs(fn) {
+					st, ok := in.(*ssa.Store)
+					if !ok {
+						continue
+					}
+					fa, ok := st.Addr.(*ssa.FieldAddr)
+					if !ok || engine.FieldOf(fa) != latch {
+						continue
+					}
+					if fn == tee && rerr != nil && fi.T(st.Val).S == fi.T(rerr).S {
+						continue
+					}
+					probs = append(probs, "the field is also written at "+p.Rel(st.Pos())+" in "+engine.FuncName(fn))
+				}
+			}
+		}
+		r.Check(len(probs) == 0, "R13.8-read-failure-reported", "read error kept by the tee", engine.FuncName(tee)+" ("+p.Rel(tee.Pos())+")", need1, strings.Join(probs, "; "))
+	}
+	ps := p.SSAFunc(mParse)
+	if ps == nil {
+		r.Add("R13.8-read-failure-reported", "read error consulted by ParseResponse", "ParseResponse", need2, "no body", engine.Undecided)
+		return
+	}
+	{
+		pfi := p.Info(ps)
+		var probs []string
+		var parse *ssa.Call
+		for _, in := range allInstrs(ps) {
+			if call, ok := in.(*ssa.Call); ok && strings.Contains(pfi.T(call).S, "ParseStream(") {
+				parse = call
+			}
+		}
+		if latch == nil {
+			probs = append(probs, "the tee keeps no read error to consult")
+		} else if parse == nil {
+			probs = append(probs, "no call of the stream parser found")
+		} else {
+			// loads of the field through the scraper's reader, after parsing
+			terms := map[string]bool{}
+			for _, in := range allInstrs(ps) {
+				u, ok := in.(*ssa.UnOp)
+				if !ok || u.Op != token.MUL {
+					continue
+				}
+				fa, ok := u.X.(*ssa.FieldAddr)
+				if !ok || engine.FieldOf(fa) != latch {
+					continue
+				}
+				if _, ok := loadOfField(fa.X, fReader); !ok {
+					continue
+				}
+				if engine.InstrDominates(parse, u) {
+					terms[pfi.T(u).S] = true
+				}
+			}
+			if len(terms) == 0 {
+				probs = append(probs, "the tee's stored read error is never looked at after parsing")
+			}
+			nonNilCtor := func(v ssa.Value, blk *ssa.BasicBlock) bool {
+				call, ok := v.(*ssa.Call)
+				if !ok {
+					return false
+				}
+				c := call.Common()
+				if engine.CalleeIs(c, "fmt", "", "Errorf") || engine.CalleeIs(c, "errors", "", "New") || engine.CalleeIs(c, "github.com/pkg/errors", "", "New") || engine.CalleeIs(c, "github.com/pkg/errors", "", "Errorf") {
+					return true
+				}
+				for _, n := range []string{"Wrap", "Wrapf", "WithMessage", "WithMessagef", "WithStack"} {
+					if engine.CalleeIs(c, "github.com/pkg/errors", "", n) {
+						ok, _ := pfi.Implies(blk, engine.Not(engine.EqAtom(pfi.T(c.Args[0]).S, "nil")))
+						return ok
+					}
+				}
+				return false
+			}
+			for _, ret := range returnsOf(ps) {
+				v := returnedValue(ret, 0)
+				if nonNilCtor(v, ret.Block()) {
+					continue
+				}
+				vt := pfi.T(v).S
+				okRet := false
+				for t := range terms {
+					want := engine.Or(engine.Not(engine.EqAtom(vt, "nil")), engine.EqAtom(t, "nil"))
+					if ok, _ := pfi.Implies(ret.Block(), want); ok {
+						okRet = true
+					}
+				}
+				if !okRet {
+					probs = append(probs, "the return at "+p.Rel(ret.Pos())+" can report success while the tee holds a read error")
+				}
+			}
+		}
+		r.Check(len(probs) == 0, "R13.8-read-failure-reported", "read error consulted by ParseResponse", engine.FuncName(ps)+" ("+p.Rel(ps.Pos())+")", need2, strings.Join(probs, "; "))
+	}
+}
